@@ -4,6 +4,7 @@ conditioning is cited (A-MATH), as is floating-point stability (A-REAL)."""
 from __future__ import annotations
 
 import types
+from vt.stubs.ns import StubNS
 
 import z3
 
@@ -50,15 +51,15 @@ def _cat_scalar(logits):
 
 
 CAT = CatDist()
-MVN = types.SimpleNamespace()
+MVN = StubNS()
 ss.jnp = JNP
-ss.jax = types.SimpleNamespace(
-    lax=types.SimpleNamespace(scan=lax_stub.scan, select=lax_stub.select),
-    scipy=types.SimpleNamespace(
-        special=types.SimpleNamespace(logsumexp=jnp_stub.logsumexp),
-        stats=types.SimpleNamespace(multivariate_normal=types.SimpleNamespace(logpdf=jnp_stub.mvn_logpdf)),
+ss.jax = StubNS(
+    lax=StubNS(scan=lax_stub.scan, select=lax_stub.select),
+    scipy=StubNS(
+        special=StubNS(logsumexp=jnp_stub.logsumexp),
+        stats=StubNS(multivariate_normal=StubNS(logpdf=jnp_stub.mvn_logpdf)),
     ),
-    tree=types.SimpleNamespace(map=jtu_stub.tree_map),
+    tree=StubNS(map=jtu_stub.tree_map),
 )
 ss.len = vt_len
 ss.categorical = CAT
@@ -463,3 +464,8 @@ class LgStep(_Native):
 from vt.contract import track as _track  # noqa: E402
 
 _track(CAT_CALLS, CATS.calls)
+
+from vt.contract import canary as _canary  # noqa: E402
+
+_canary(ForwardFilter, "T>=1", "step:alpha_t(j)=logE[j,y_t]+LSE_i(alpha_{t-1}(i)+logT[i,j])")
+_canary(KalmanFilter, "T>=1", "step:predict_then_update_covariance")
